@@ -9,6 +9,7 @@ Faults: a task raising at each position; a task that never finishes with timeout
 real pool round trip.
 """
 import io
+import itertools
 import multiprocessing
 import pickle
 import sys
@@ -26,7 +27,8 @@ from mc.universe import config as Cfg
 
 ID = "C18"
 LEVEL = "model_checking"
-SERIAL = True     # pools cannot be created inside the engine's (daemonic) worker processes
+SERIAL = True
+KEEP_SHARD_ORDER = True     # the shard that holds hundreds of records in memory runs last: every pool start forks the process     # pools cannot be created inside the engine's (daemonic) worker processes
 RULE = ("schedules = completion orders of running pool tasks for (n tasks, k workers): the default (lowest running task finishes first) and "
         "every schedule within the deviation bound; each replayed on the real pool; fault cases = (n, k, failing position) and one hanging "
         "task with timeout; content cases = annotated records across the process boundary; non-trivial = a schedule with at least two "
@@ -39,7 +41,7 @@ ASSUMPTIONS = [
 ]
 BOUNDS = {"quick": "n in 1..5 x k in 1..4, deviations <= 2; (17,16) and (33,16) deviations <= 1; faults at every position for n<=4,k in {2,3}",
           "thorough": "n in 1..7 x k in 1..4, deviations <= 3; (17,16), (33,16), (9,2) deviations <= 2"}
-REQUIRED_BUCKETS = {t: ["schedules:replayed", "schedules:reordered-completion", "faults:raised-in-worker", "faults:timeout", "content:records", "content:catalogue-records", "content:origin-spanning-gene-records"]
+REQUIRED_BUCKETS = {t: ["schedules:replayed", "schedules:reordered-completion", "faults:raised-in-worker", "faults:timeout", "content:records", "content:catalogue-records", "content:origin-spanning-gene-records", "histories:checked"]
                     for t in ("quick", "thorough")}
 N_MAX = 40
 WATCHDOG = 60.0
@@ -72,6 +74,47 @@ def gated_task(index, payload):
 
 def plain_task(index, payload):
     return (index, payload * 2)
+
+
+PARENT_STATE = {"value": 0}
+
+
+def state_task(index):
+    """a worker body whose result depends on module-level state of the calling process at the time of the call (as
+    ensure_cds_info depends on the configuration): run one after another in-process it sees the current value"""
+    from antismash.config import get_config  # pylint: disable=import-outside-toplevel
+    return (index, PARENT_STATE["value"], get_config().get("verif_marker", None))
+
+
+HISTORY_OPS = ["set:1", "set:2", "run:2x3", "run:3x2", "run:2x1"]
+
+
+def check_history(ops):
+    """a sequence of batches with changes of the caller's state in between: every batch must equal the calls run one after
+    another at that moment (a helper that keeps workers alive between batches would answer from a stale copy of the caller)"""
+    from antismash.config import update_config  # pylint: disable=import-outside-toplevel
+    PARENT_STATE["value"] = 0
+    update_config({"verif_marker": 0})
+    fails = []
+    try:
+        for position, op in enumerate(ops):
+            if op.startswith("set:"):
+                PARENT_STATE["value"] = int(op[4:])
+                update_config({"verif_marker": int(op[4:]) * 10})
+                continue
+            cpus, count = (int(x) for x in op[4:].split("x"))
+            expected = [state_task(i) for i in range(count)]
+            try:
+                got = parallel_function(state_task, [[i] for i in range(count)], cpus=cpus, timeout=30)
+            except Exception as err:  # pylint: disable=broad-except
+                fails.append(("history-batch-raised", f"{ops} step {position}: {type(err).__name__}: {str(err)[:100]}"))
+                break
+            if got != expected:
+                fails.append(("batch-differs-from-sequential-after-state-change", f"{ops} step {position}: {got} vs {expected}"))
+                break
+    finally:
+        PARENT_STATE["value"] = 0
+    return fails
 
 
 def _reset():
@@ -322,7 +365,7 @@ def catalogue_records(tier):
     from mc.universe import catalogue as K  # pylint: disable=import-outside-toplevel
     specs = K.specs("quick")
     if tier == "quick":
-        specs = [s for i, s in enumerate(specs) if s["layout"] in K.CIRCULAR_ONLY or i % 5 == 0]
+        specs = [s for i, s in enumerate(specs) if (s["layout"] in K.CIRCULAR_ONLY and len(s["extras"]) != 1) or i % 7 == 0]
     out = []
     for spec in specs:
         rec = K.build_record(spec)
@@ -388,6 +431,7 @@ def shards(tier):
     for n, k, bound in grid:
         out.append(["schedules", n, k, bound])
     out.append(["faults", fault_grid])
+    out.append(["histories", 3 if tier == "quick" else 4])
     out.append(["content", tier])
     return out
 
@@ -422,6 +466,23 @@ def run_shard(shard):
         res.evals += 1
         res.outcomes[("faults", len(shard[1]))] += 1
         res.sample({"kind": "faults", "n": 2, "k": 2}, 1)
+    elif shard[0] == "histories":
+        Cfg.make_config(["--cpus", "2"])
+        depth = shard[1]
+        for length in range(1, depth + 1):
+            for ops in itertools.product(HISTORY_OPS, repeat=length):
+                runs = [o for o in ops if o.startswith("run")]
+                if not ops[-1].startswith("run") or len(runs) < 2 or not any(o.startswith("set") for o in ops):
+                    continue    # only histories with a state change between two batches say anything new
+                res.evals += 1
+                res.nontrivial += 1
+                fails = check_history(list(ops))
+                res.buckets["histories:checked"] += 1
+                res.outcomes[("history", len(ops), len(fails))] += 1
+                for clause, detail in fails:
+                    res.fail({"kind": "history", "ops": list(ops)}, clause, detail)
+                if res.evals % 17 == 1:
+                    res.sample({"kind": "history", "ops": list(ops)})
     else:
         Cfg.make_config(["--cpus", "2"])
         fails = check_content(res.buckets, shard[1] if len(shard) > 1 else "quick")
@@ -445,6 +506,9 @@ def replay(case):
         return check_schedules(case["n"], case["k"], case["bound"])[0]
     if case["kind"] == "faults":
         return check_faults(case["n"], case["k"]) + check_timeout(case["n"], case["k"])
+    if case["kind"] == "history":
+        Cfg.make_config(["--cpus", "2"])
+        return check_history(case["ops"])
     if case["kind"] == "content":
         Cfg.make_config(["--cpus", "2"])
         return check_content()
